@@ -447,7 +447,79 @@ func c15Nontrivial(in *c15Input) bool {
 	return false
 }
 
+// c15LogLen: the length of a long log. Half of the draws sit on and next to the powers of two
+// between 64 and 512 (the usual sizes of a page, a batch or a buffer of entries), the rest anywhere
+// between 100 and 700 (thorough: 1500).
+func c15LogLen(r *rand.Rand, thorough bool) int {
+	if r.Intn(2) == 0 {
+		return (64 << uint(r.Intn(4))) - 1 + r.Intn(4)
+	}
+	if thorough {
+		return 100 + r.Intn(1400)
+	}
+	return 100 + r.Intn(600)
+}
+
+// genC15Long (tag longlog): a history in which one ref takes hundreds of logged sets — plain ones and
+// ones with generated author / action / time / transaction id — with a few other operations in
+// between; its log is read, the ref is copied or renamed (the log is carried along), the target's log
+// is read, the target takes a few more logged sets and is read again. Everything is observed at the
+// end as in genC15. A reader or a copy that handles a log in pieces (pages, batches, chunks) has its
+// piece boundaries inside such a log.
+func genC15Long(r *rand.Rand, thorough bool) *c15Input {
+	in := &c15Input{}
+	name := func() string { return c15Names[r.Intn(len(c15Names))] }
+	hot := name()
+	n := c15LogLen(r, thorough)
+	logged := func(k string, i int) []interface{} {
+		if r.Intn(3) == 0 {
+			au := c15Authors[r.Intn(len(c15Authors))]
+			return []interface{}{"setlogx", k, c15Sum(r), "m" + itoa(i), c15Txids[r.Intn(len(c15Txids))], au[0], au[1],
+				c15Actions[r.Intn(len(c15Actions))], 1700000000 + r.Intn(100000)}
+		}
+		return []interface{}{"setlog", k, c15Sum(r), "m" + itoa(i)}
+	}
+	for i := 0; i < n; i++ {
+		in.Ops = append(in.Ops, logged(hot, i))
+		if r.Intn(40) == 0 {
+			// something else in between: another ref's log grows, a plain set of the hot ref (no entry), reads
+			switch r.Intn(4) {
+			case 0:
+				in.Ops = append(in.Ops, logged(name(), i))
+			case 1:
+				in.Ops = append(in.Ops, []interface{}{"set", hot, c15Sum(r)})
+			case 2:
+				in.Ops = append(in.Ops, []interface{}{"get", hot})
+			default:
+				in.Ops = append(in.Ops, []interface{}{"filterkey", []string{c15Prefixes[r.Intn(len(c15Prefixes))]}, []string{}})
+			}
+		}
+	}
+	in.Ops = append(in.Ops, []interface{}{"log", hot})
+	dst := name()
+	if r.Intn(2) == 0 {
+		in.Ops = append(in.Ops, []interface{}{"del", dst})
+	}
+	in.Ops = append(in.Ops, []interface{}{[]string{"copy", "rename"}[r.Intn(2)], hot, dst}, []interface{}{"log", dst})
+	for i, k := 0, r.Intn(4); i < k; i++ {
+		in.Ops = append(in.Ops, logged(dst, n+i))
+	}
+	in.Ops = append(in.Ops, []interface{}{"log", dst}, []interface{}{"log", hot})
+	// final observation of everything
+	in.Ops = append(in.Ops, []interface{}{"filter", []string{}, []string{}})
+	for _, nm := range c15Names {
+		in.Ops = append(in.Ops, []interface{}{"log", nm})
+	}
+	return in
+}
+
 func runC15(ctx *Ctx) {
+	// one case in 40: one ref with a log of hundreds of entries on the SQL store, see genC15Long
+	if ctx.Idx%40 == 8 {
+		in := genC15Long(ctx.R, ctx.Thorough())
+		ctx.Emit("ops", in, c15Run(in), c15Nontrivial(in), "longlog")
+		return
+	}
 	// every fifth case: a history on the file-based store (pkg/ref/fs), see genC15Fs
 	if ctx.Idx%5 == 2 {
 		in := genC15Fs(ctx.R, ctx.Thorough(), false)
